@@ -43,18 +43,18 @@ type DispatchResult struct {
 	NoResolve      []string `json:"no_resolve"`
 	EdgesChecked   int      `json:"edges_checked"`
 	// C18: per root selection ("00" = main+init, "10" = -nomain, "01" = -noinit, "11")
-	ReachIDs     map[string][]int `json:"reach_ids"`
-	ReachCount   map[string]int   `json:"reach_count"`
-	CGNotInReach []string         `json:"cg_not_in_reach"` // pointer call-graph reachable but not in FindReachable
-	CGNotInReachIDs []int         `json:"cg_not_in_reach_ids"`
+	ReachIDs        map[string][]int `json:"reach_ids"`
+	ReachCount      map[string]int   `json:"reach_count"`
+	CGNotInReach    []string         `json:"cg_not_in_reach"` // pointer call-graph reachable but not in FindReachable
+	CGNotInReachIDs []int            `json:"cg_not_in_reach_ids"`
 	// CGNotInReachStatic: missing functions that a function inside FindReachable calls statically (no dynamic
 	// dispatch involved): these cannot be explained by interface-assertion imprecision.
 	CGNotInReachStatic []string `json:"cg_not_in_reach_static"`
-	NotInAll     []string         `json:"not_in_all"`      // FindReachable not in AllFunctions
-	NotMonotone  []string         `json:"not_monotone"`    // root-exclusion result not a subset
-	AllCount     int              `json:"all_count"`
-	CGCount      int              `json:"cg_count"`
-	Err          string           `json:"err,omitempty"`
+	NotInAll           []string `json:"not_in_all"`   // FindReachable not in AllFunctions
+	NotMonotone        []string `json:"not_monotone"` // root-exclusion result not a subset
+	AllCount           int      `json:"all_count"`
+	CGCount            int      `json:"cg_count"`
+	Err                string   `json:"err,omitempty"`
 }
 
 func enterID(f *ssa.Function) (int, bool) {
